@@ -9,6 +9,8 @@ CLAIMED = {
          'Oracle evaluated only after a quiesce phase, per clean component whose synchronisation condition is satisfiable; stubs per evidence.assumptions'),
  'C02': ('6/C02', 'Every STATE publication of every instance, in every simulated run (faults + restart/shutdown/end_sync/restart_sequence operations), is checked against an independent copy of the documented graph, the RUNNING-Master precondition and the slave-after-Master ordering.',
          'Publications are tapped at RpcHandler.push_publication (instance attribute, no source change); known finding for supvisors_failure_strategy=SHUTDOWN listed in known_findings.json'),
+ 'C07': ('6/C07', 'Per (observer, peer) monitor in every simulated run: a RUNNING/CHECKED peer declared FAILED/STOPPED/ISOLATED must be justified by silence (> inactivity_ticks local ticks since the last TICK delivered to the listener), a failed XML-RPC, or a restart; a silent peer must be out of the active states at the stated tick and invalidated by the next; fencing rule; lost processes unlisted and FATAL; instance state graph incl. ISOLATED final and local never ISOLATED.',
+         'Accuracy is judged on deliveries observed by the simulator (sound under any delay); crash / restart (stealth) / partition (refuse, blackhole, directed) / heal / stall / slow links, inactivity_ticks 2-5, both auto_fence values'),
  'C08': ('6/C08', 'Liveness after faults stop: crash / restart / healed partitions / process failures placed in every FSM state (triggers on ELECTION, DISTRIBUTION, CONCILIATION), then >= 200 s + synchro_timeout of simulated quiet; every member of every satisfiable component must be in OPERATION (CONCILIATION with USER and a real conflict) with no job pending.',
          'Bounded quiesce phase (stated in evidence); children eventually behave; supvisors_failure_strategy SHUTDOWN and USER-only synchronisation excluded as in the statement'),
  'C16': ('6/C16', 'Union of fault kinds (crash, restart, partition, stall, slow link, clock jump, process crash) and of all XML-RPC methods with valid and hostile parameters on diverse configurations (instances of one node knowing different programs): no CRIT record with a traceback, no non-RPCError exception out of an XML-RPC method (incl. TypeError masked by Supervisor), no exception out of a proxy job.',
